@@ -272,6 +272,26 @@ def f_call_result(E, node):
     raise Unsupported('no logged call of %s' % qual)
 
 
+@form('view_start')
+def f_view_start(E, node):
+    """view_start(a): the position, within its underlying storage, at which the array view `a` begins (a[k:] of a view
+    starting at s starts at s + k)"""
+    a = E.eval(node.args[0])
+    if not isinstance(a, Arr):
+        raise Unsupported('view_start of a non-array')
+    return Z(a.off if not isinstance(a.off, int) else z3.IntVal(a.off), INT)
+
+
+@form('param')
+def f_param(E, node):
+    """param('name'): the argument object the function was called with (when a local of the same name shadows it)"""
+    name = E.eval(node.args[0])
+    env = getattr(E, 'entry_env', None) or {}
+    if name not in env:
+        raise Unsupported('no parameter %s' % name)
+    return env[name]
+
+
 @form('local')
 def f_local(E, node):
     """local('name'): the value of a local variable of the function at the point where the clause is evaluated
